@@ -1012,6 +1012,9 @@ class Client():
             except ValueError as ex:
                 raise httping.InvalidURL("Invalid redirect location '{0}': {1}"
                                          "".format(location, ex))
+            if splits.path.startswith('//'):  # build would take it for a host and port
+                raise httping.InvalidURL("Invalid redirect location '{0}': path "
+                                         "starts with //".format(location))
             hostname = splits.hostname
             scheme = splits.scheme
             if not hostname:  # relative location so same scheme host and port
@@ -1034,7 +1037,7 @@ class Client():
 
             try:
                 host = coring.normalizeHost(hostname)
-            except OSError as ex:  # cannot resolve address of hostname
+            except (OSError, UnicodeError) as ex:  # cannot resolve address of hostname
                 raise httping.InvalidURL("Unresolvable redirect location '{0}': {1}"
                                          "".format(location, ex))
             ha = (host, port)
